@@ -283,7 +283,7 @@ class History:
         self.problems = []      # dicts: kind in prop|corr
         self.known = []
         self.stats = {"sessions": 0, "ops": 0, "writes": 0, "flushes": 0, "compactions": 0, "moves": 0, "gc": 0, "events": 0, "dropped_events": 0,
-                      "probes": 0, "probes_a": 0, "probes_b": 0, "nested": 0, "kills": 0, "faults": 0, "faults_surfaced": 0, "faults_dropped_ok": 0,
+                      "probes": 0, "probes_a": 0, "probes_b": 0, "probes_r": 0, "nested": 0, "kills": 0, "faults": 0, "faults_surfaced": 0, "faults_dropped_ok": 0,
                       "inflight_in": 0, "inflight_out": 0, "trace_calls_compared": 0, "probe_points": {}}
         self.bind = {}          # real setsum hex -> model sst id
         self.rbind = {}
@@ -482,13 +482,16 @@ class History:
         (sampled) event materialise both crash images, reopen them, compare"""
         for r, ev in enumerate(evs):
             if ev.kind is not None and self.want_probe(len(evs), opdesc):
-                for mode in ("a", "b"):
-                    img = self.fs.image(mode)
+                modes = ("a", "b", "r") if self.rng.chance(1, 4) else ("a", "b")
+                for mode in modes:
+                    img = self.fs.image(mode, self.rng)
                     d = self.image_dir(img, "img")
-                    nested = self.tier != "quick" and self.rng.chance(1, 12) or (self.tier == "quick" and self.rng.chance(1, 40))
+                    nested = mode != "r" and (self.rng.chance(1, 12) if self.tier != "quick" else self.rng.chance(1, 40))
                     tr = os.path.join(self.dir, "probe.trace") if nested else None
                     pr = probe(self.exe, d, self.opts, trace=tr)
-                    mq = self.model.cmd("Q %d %s" % (prefix[r], mode))
+                    # 'r' (an arbitrary cut between the two models) is covered by the theorem's `cut`;
+                    # the extracted model is asked for (a) and (b) only
+                    mq = self.model.cmd("Q %d %s" % (prefix[r], mode)) if mode != "r" else None
                     rp = {"options": self.optname, "history": ops_to_json(self.ops), "session": sess_idx, "operation": opdesc,
                           "crash_before_call": "%s(%s%s)" % (ev.sys, ev.p1, (" -> " + ev.p2) if ev.p2 else ""), "crash_model": mode}
                     self.stats["probes_" + mode] += 1
@@ -651,7 +654,7 @@ class History:
                     kept, prefix = self.canon_events(oe)
                     self.compare_trace(kept, [c for c in m[6:].split(" ; ") if c], "write (session %d op %d)" % (si, n))
                     self.probe_points(oe, prefix, "during write %d of session %d" % (n, si), list(self.acked), payload, "write " + script[n - 1], si, kill_ctx)
-                    g = self.model.cmd("GO")
+                    g = self.model_go("session %d op %d" % (si, n))
                     self.acked.append(payload)
                 elif kind == "flush":
                     if not res.startswith("ok"):
@@ -662,7 +665,7 @@ class History:
                     kept, prefix = self.canon_events(oe)
                     self.compare_trace(kept, [c for c in m[6:].split(" | ")[0].split(" ; ") if c], "flush (session %d op %d)" % (si, n))
                     self.probe_points(oe, prefix, "during flush %d of session %d" % (n, si), list(self.acked), None, "flush", si, kill_ctx)
-                    g = self.model.cmd("GO")
+                    g = self.model_go("session %d op %d" % (si, n))
                 elif kind == "compact":
                     t = res.split(" ")
                     if t[0] == "none":
@@ -703,13 +706,19 @@ class History:
                     kept, prefix = self.canon_events(oe)
                     self.compare_trace(kept, [c for c in m[6:].split(" ; ") if c], "compaction (session %d op %d)" % (si, n))
                     self.probe_points(oe, prefix, "during compaction %d of session %d" % (n, si), list(self.acked), None, "compact " + res[:60], si, kill_ctx)
-                    g = self.model.cmd("GO")
+                    g = self.model_go("session %d op %d" % (si, n))
                 fault_plan += [(si, n, ev) for ev in oe]
             self.model.cmd("EXIT")
             # the process exited: everything written is there
             self.session_scripts = getattr(self, "session_scripts", []) + [(start_fs, script, items)]
         # ---- injected I/O errors
         self.fault_runs(fault_plan)
+
+    def model_go(self, where):
+        g = self.model.cmd("GO")
+        if not g.startswith("DONE ok=1"):
+            self.problem("corr", "the model's operation did not complete (%s): %s" % (where, g[:80]))
+        return g
 
     def sync_files(self, g, files, seq, where):
         """after a dump: bind the real names to the model's ids by content, compare the live set"""
